@@ -230,3 +230,56 @@ def Event.isDisj : Event → Bool
   | _ => false
 
 end Hpl
+
+namespace Hpl
+/-! ### `iterate()` on properties, scopes, patterns, events and predicates (the same loop of `base.py` over `children()`) -/
+
+inductive Node where
+  | prop (p : Property) | scope (s : Scope) | pattern (p : Pattern) | event (e : Event) | pred (p : Pred) | expr (e : Expr)
+deriving Inhabited
+
+def optL {α : Type} : Option α → List α
+  | some a => [a]
+  | none => []
+
+/-- `children()` per class, in source order -/
+def Node.children : Node → List Node
+  | .prop p => [.scope p.scope, .pattern p.pattern]
+  | .scope s => (optL s.activator ++ optL s.terminator).map .event
+  | .pattern p => (optL p.trigger ++ [p.behaviour]).map .event
+  | .event (.simple _ _ p) => [.pred p]
+  | .event (.disj a b) => [.event a, .event b]
+  | .pred (.expr e) => [.expr e]
+  | .pred _ => []
+  | .expr e => e.children.map .expr
+
+def Event.nsize : Event → Nat
+  | .simple _ _ p => 2 + (match p with | .expr e => e.size | _ => 0)
+  | .disj a b => 1 + a.nsize + b.nsize
+
+def Node.size : Node → Nat
+  | .prop p => 3 + ((optL p.scope.activator ++ optL p.scope.terminator).map Event.nsize).sum + ((optL p.pattern.trigger ++ [p.pattern.behaviour]).map Event.nsize).sum
+  | .scope s => 1 + ((optL s.activator ++ optL s.terminator).map Event.nsize).sum
+  | .pattern p => 1 + ((optL p.trigger ++ [p.behaviour]).map Event.nsize).sum
+  | .event e => e.nsize
+  | .pred p => 1 + (match p with | .expr e => e.size | _ => 0)
+  | .expr e => e.size
+
+def nodeIterLoop : Nat → List Node → List Node → List Node
+  | 0, _, acc => acc.reverse
+  | _, [], acc => acc.reverse
+  | fuel+1, obj :: stack, acc => nodeIterLoop fuel (obj.children ++ stack) (obj :: acc)
+
+/-- `obj.iterate()` for any AST object below a property -/
+def Node.iterate (n : Node) : List Node := nodeIterLoop (n.size + 1) [n] []
+
+/-- a short tag per visited node (what the correspondence compares) -/
+def Node.tag : Node → String
+  | .prop _ => "property" | .scope _ => "scope" | .pattern _ => "pattern"
+  | .event (.simple ..) => "simple_event" | .event (.disj ..) => "disjunction"
+  | .pred (.expr _) => "predicate" | .pred .vtrue => "true" | .pred .vfalse => "false"
+  | .expr (.lit ..) => "lit" | .expr (.this ..) => "this" | .expr (.var ..) => "var" | .expr (.set ..) => "set" | .expr (.range ..) => "range"
+  | .expr (.quant ..) => "quant" | .expr (.un ..) => "un" | .expr (.bin ..) => "bin" | .expr (.call ..) => "call"
+  | .expr (.field ..) => "field" | .expr (.index ..) => "index"
+
+end Hpl
